@@ -127,10 +127,80 @@ def main(ctx):
                         s, st, None if r is None else tuple(r), (want, bw) if should else 'reject'), {'string': s})
                     break
         ctx.distinct.add(('str', bw))
+    # underscores are digit separators anywhere after the first digit (doubled and trailing ones included)
+    for _ in range(ctx.n(150, 1500)):
+        bw = rng.randint(1, 16)
+        v = rng.getrandbits(bw)
+        base, digs = rng.choice([('b', bin(v)[2:]), ('h', '%x' % v), ('d', str(v)), ('o', '%o' % v), ('H', '%X' % v), ('x', '%x' % v)])
+        body = digs[0]
+        for ch in digs[1:]:
+            body += rng.choice(['', '', '_', '__']) + ch
+        body += rng.choice(['', '', '_', '__'])
+        s_ = "%d'%s%s%s" % (bw, base, rng.choice(['', ' ']), body)
+        st, r = call(hf.infer_val_and_bitwidth, s_)
+        ctx.evaluations += 1
+        if st != 'ok' or (r.value, r.bitwidth) != (v, bw):
+            viol('verilog-string-separators', 'infer_val_and_bitwidth(%r) -> %s %r; the digits denote %r' % (
+                s_, st, None if r is None else tuple(r), (v, bw)), {'string': s_})
+            break
     for s, want in (("8'B 0110_1100", (108, 8)), ("5'b10", (2, 5)), ("12'hFf", (255, 12)), ("4's3", None), ("3", None), ("4'", None)):
         st, r = call(hf.infer_val_and_bitwidth, s)
         if (want is None) != (st != 'ok') or (want and tuple(r) != want):
             viol('verilog-string', 'infer_val_and_bitwidth(%r) -> %s %r, expected %r' % (s, st, r, want), {'string': s})
+    # every spelling [-]w'<base><digits> for small widths: the digits denote the magnitude; a leading minus its two's
+    # complement in w bits (minus zero is zero).  Negative magnitudes >= 2^(w-1) are not compared (see DESIGN 10.5).
+    done_strings = 0
+    for w_ in range(1, ctx.n(5, 7)):
+        for base, fmt_ in (('b', 'b'), ('o', 'o'), ('d', 'd'), ('h', 'x'), ('x', 'x'), ('', 'd')):
+            for m_ in range(0, (1 << w_) + 2):
+                for neg in ('', '-'):
+                    if neg and m_ >= (1 << (w_ - 1)) and m_ != 0:
+                        continue
+                    s_ = "%s%d'%s%s" % (neg, w_, base, format(m_, fmt_))
+                    want = None if m_ >> w_ else (((1 << w_) - m_) % (1 << w_) if neg else m_, w_)
+                    st, r = call(hf.infer_val_and_bitwidth, s_)
+                    ctx.evaluations += 1
+                    done_strings += 1
+                    if (want is None) != (st != 'ok') or (want is not None and tuple(r) != want):
+                        viol('verilog-string-grid', 'infer_val_and_bitwidth(%r) -> %s %r, the string denotes %r' % (
+                            s_, st, None if r is None else tuple(r), want), {'string': s_})
+                        break
+                    if want is not None:
+                        stc, c_ = call(lambda x: pyrtl.Const(x), s_)
+                        if stc != 'ok' or (c_.val, c_.bitwidth) != want:
+                            viol('verilog-string-grid:Const', 'Const(%r) -> %s %r, the string denotes %r' % (
+                                s_, stc, None if c_ is None else (c_.val, c_.bitwidth), want), {'string': s_})
+                            break
+    ctx.count('verilog-strings', done_strings)
+    # enum format: names <-> values; an alias reads as its value, a value prints as the canonical (first) name
+    import enum
+    for _e in range(ctx.n(3, 20)):
+        vals_ = rng.sample(range(16), rng.randint(2, 6))
+        members = [('M%d' % i, v) for i, v in enumerate(vals_)]
+        aliases = [('A%d' % i, v) for i, v in enumerate(vals_) if rng.random() < 0.5]
+        allm = members + aliases
+        if rng.random() < 0.5:
+            # aliases may be declared anywhere after their canonical member
+            for al in aliases:
+                allm.remove(al)
+                pos = [i for i, (n_, v) in enumerate(allm) if v == al[1]][0]
+                allm.insert(rng.randint(pos + 1, len(allm)), al)
+        Ctl = enum.Enum('Ctl', allm)
+        Other = enum.Enum('Other', [('X', 1), ('M0', 14)])
+        fmt_e = 'e4/Ctl'
+        for nm_, v in allm:
+            st, got = call(hf.formatted_str_to_val, nm_, fmt_e, [Other, Ctl])
+            ctx.evaluations += 1
+            if st != 'ok' or got != v:
+                viol('format-enum:str_to_val', 'formatted_str_to_val(%r, %r) = %r (%s), the member has value %d' % (nm_, fmt_e, got, st, v),
+                     {'members': allm})
+                break
+            canon = [n_ for n_, v2 in allm if v2 == v][0]
+            st, back = call(hf.val_to_formatted_str, v, fmt_e, [Other, Ctl])
+            if st != 'ok' or back != canon:
+                viol('format-enum:val_to_str', 'val_to_formatted_str(%d, %r) = %r (%s) with members %r; the name of that value is %r' % (
+                    v, fmt_e, back, st, allm, canon), {'members': allm})
+                break
     for b in (True, False):
         for bw in (None, 1, 2):
             for signed in (False, True):
@@ -209,6 +279,16 @@ def main(ctx):
         vals_ = {f: rng.getrandbits(widths[f]) for f in fields}
         st, v = call(hf.bitpattern_to_val, clean, *[vals_[f] for f in fields])
         ctx.evaluations += 1
+        # the named forms: fields by letter, and through a field_map whose names may be other letters of the pattern
+        if st == 'ok' and fields:
+            st_n, v_n = call(hf.bitpattern_to_val, clean, **{f: vals_[f] for f in fields})
+            perm = list(fields)
+            rng.shuffle(perm)
+            names = dict(zip(fields, perm if rng.random() < 0.6 else ['n_' + f for f in fields]))
+            st_m, v_m = call(hf.bitpattern_to_val, clean, field_map=dict(names), **{names[f]: vals_[f] for f in fields})
+            if (st_n, v_n) != ('ok', v) or (st_m, v_m) != ('ok', v):
+                viol('bitpattern_to_val-named', 'bitpattern_to_val(%r): positional %r, by letter %r (%s), through field_map %r: %r (%s)' % (
+                    clean, v, v_n, st_n, names, v_m, st_m), {'pattern': pat, 'fields': vals_, 'field_map': names})
         if st != 'ok':
             viol('bitpattern_to_val', 'bitpattern_to_val(%r, %r) raises %s' % (pat, vals_, st), {'pattern': pat})
             continue
